@@ -113,8 +113,10 @@ def check_image(rec, n, nbins, idx, shard=False):
                 a8 = 128.0 / float(hi - lo)
                 if float(a8).is_integer() or float(1 / a8).is_integer():
                     d8 = (a8 * (data - lo) + 100).astype(np.uint8)
-                    for dt in (np.uint8, np.int16):
-                        fi = ScalarField(grid, d8.astype(dt), dtype=dt)
+                    for dt in (np.uint8, np.int16, np.int8):
+                        # int8: levels -64 .. 64, whose difference does not fit the type either
+                        arr = d8.astype(dt) if dt is not np.int8 else (d8.astype(np.int16) - 164).astype(np.int8)
+                        fi = ScalarField(grid, arr, dtype=dt)
                         for rule, mask, t in rules:
                             if t is not None:
                                 continue
